@@ -61,11 +61,22 @@ def _scope_children(node):
     return out
 
 
+def _code_digest(node):
+    """digest of the function's CODE: its AST without docstrings (comments are not part of the AST, positions are not dumped) - an edit of
+    a comment or a docstring is not a change of the function"""
+    import copy
+    n = copy.deepcopy(node)
+    for sub in ast.walk(n):
+        if isinstance(sub, (ast.FunctionDef, ast.AsyncFunctionDef, ast.ClassDef)) and sub.body and isinstance(sub.body[0], ast.Expr) \
+                and isinstance(sub.body[0].value, ast.Constant) and isinstance(sub.body[0].value.value, str):
+            sub.body = sub.body[1:] or [ast.Pass()]
+    return hashlib.sha256(ast.dump(n, include_attributes=False).encode()).hexdigest()
+
+
 def describe(target):
     path, src, node = locate(target)
-    seg = ast.get_source_segment(src, node) or ''
     return {'target': target, 'file': os.path.relpath(path, REPO), 'lines': [node.lineno, node.end_lineno],
-            'sha256': hashlib.sha256(seg.encode()).hexdigest()}
+            'sha256': _code_digest(node)}
 
 
 def decorators(node):
